@@ -1,12 +1,12 @@
 // gofacts: source-level ties between /repo and the Lean models.
 //
-//	gofacts translate -repo DIR -out FILE
+//	gofacts translate -repo DIR -group G -out FILE
 //
 // Mode `translate` (DESIGN.md 1.3, "T1 leaf translator") parses the CURRENT
 // source of a fixed list of small straight-line Go functions of the packages
 // ot and circuit with go/parser and emits one Lean 4 definition per function
-// (namespace Mpc.Gen, file lean/MpcVerif/Gen/Leaf.lean).  The proofs in
-// lean/MpcVerif/Proofs/GenTie.lean show that every generated definition equals
+// of group G (groups.go; namespace Mpc.Gen[.G], file lean/MpcVerif/Gen/Leaf<G>.lean).
+// The proofs in lean/MpcVerif/Proofs/GenTie*.lean show that every generated definition equals
 // the hand-written model, so a semantic edit of such a function breaks a proof
 // obligation at `lake build` time.
 //
@@ -23,7 +23,7 @@ import (
 )
 
 func usage() {
-	fmt.Fprintf(os.Stderr, "usage: gofacts translate [-repo DIR] [-out FILE]\n       gofacts callseq -repo DIR -pkg DIR -func NAME -methods A,B,...\n")
+	fmt.Fprintf(os.Stderr, "usage: gofacts translate [-repo DIR] [-group G] [-out FILE]\n       gofacts callseq -repo DIR -pkg DIR -func NAME -methods A,B,...\n")
 	os.Exit(2)
 }
 
@@ -36,8 +36,9 @@ func main() {
 		fs := flag.NewFlagSet("translate", flag.ExitOnError)
 		repo := fs.String("repo", "/repo", "root of the repository under test")
 		out := fs.String("out", "-", "output Lean file (- = stdout)")
+		grp := fs.String("group", "C01", "group of functions to translate (see groups.go)")
 		fs.Parse(os.Args[2:])
-		text, report, errs := translateAll(*repo)
+		text, report, errs := translateAll(*repo, *grp)
 		if len(errs) > 0 {
 			for _, e := range errs {
 				fmt.Fprintf(os.Stderr, "gofacts translate: %s\n", e)
